@@ -78,7 +78,23 @@ struct Drawn {
 
 fn draw(font: &MonoFont, sty: &StyleSpec, ts: TextStyle, text: &[u32], pos: Point) -> Drawn {
     let s = string_of(text);
-    let t = Text::with_text_style(&s, pos, sty.build(font), ts);
+    // (the same settings, constructed along one of several routes of the Text / TextStyle API)
+    let al = match ts.alignment {
+        Alignment::Left => 0,
+        Alignment::Center => 1,
+        Alignment::Right => 2,
+    };
+    let bl = match ts.baseline {
+        Baseline::Top => 0,
+        Baseline::Bottom => 1,
+        Baseline::Middle => 2,
+        Baseline::Alphabetic => 3,
+    };
+    let lh = match ts.line_height {
+        LineHeight::Pixels(p) => (0u8, p),
+        LineHeight::Percent(p) => (1u8, p),
+    };
+    let t = mk_text(&s, pos, sty.build(font), al, bl, lh, text.len() + pos.x.unsigned_abs() as usize + pos.y.unsigned_abs() as usize);
     let mut target = MapTarget::<Gray8>::new();
     let ret = t.draw(&mut target).unwrap();
     Drawn { ret: pt_json(ret), map: raster(&target.map), bbox: rect_json(&t.bounding_box()), painted: !target.map.is_empty() }
